@@ -44,7 +44,7 @@ class Contract:
     """Sidecar contract of a function/property.  Expressions are Python source strings in the contract language."""
 
     def __init__(self, qualname, params=None, result=None, requires=(), ensures=(), raises=None, invariants=None,
-                 pure=True, modifies=(), source=None, kind="proved", note="", decreases=None):
+                 pure=True, modifies=(), source=None, kind="proved", note="", decreases=None, locals=None, defaults=None):
         self.qualname = qualname              # "Class.attr" or "func"
         self.params = dict(params or {})       # name -> type string (including 'self')
         self.result = result                   # type string or None
@@ -55,6 +55,8 @@ class Contract:
         self.pure = pure
         self.modifies = modifies
         self.source = source                   # (relative file, qualname) of the real code, None for assumed contracts
+        self.locals = dict(locals or {})       # local variable name -> type string (for containers created empty)
+        self.defaults = dict(defaults or {})
         self.kind = kind                       # 'proved' (has a body that pyvc checks) | 'assumed' (dependency axiom)
         self.note = note
 
@@ -72,6 +74,7 @@ class Executor:
         self.guards = []               # short-circuit guards in force during expression evaluation
         self.fname = "?"
         self.spec_mode = False
+        self.dead_ends = []            # statements reached by a state whose assumptions had become contradictory (vacuity alarm)
 
     # ------------------------------------------------------------------ helpers
     def feasible(self, st):
@@ -125,6 +128,8 @@ class Executor:
         """Make `v` usable where `ty` is expected (boxing primitives into Opt, None into Opt...)."""
         if v.ty == ty:
             return v
+        if v.ty is PY and isinstance(v.py, tuple) and v.py and v.py[0] == "pytype" and is_ref(ty):
+            return V(self.model.pytype_consts[v.py[1]], ty)
         if isinstance(ty, OptT):
             if v.ty is NONE_T:
                 return V(NONE, ty)
@@ -446,7 +451,8 @@ class Executor:
             return base.py[idx.term.as_long()]
         if isinstance(base.ty, SeqT) and idx.ty is INT:
             n = seq_len(base.term)
-            i = z3.If(idx.term < 0, n + idx.term, idx.term)
+            # a concrete negative index counts from the end; a symbolic index must be proved non-negative (stricter than Python)
+            i = (n + idx.term) if (z3.is_int_value(idx.term) and idx.term.as_long() < 0) else idx.term
             self.safety("index in range", st, z3.And(0 <= i, i < n), node, "IndexError")
             return V(seq_at(base.term, i, base.ty.elem), base.ty.elem)
         if isinstance(base.ty, MapT):
@@ -611,6 +617,13 @@ class Executor:
 
     def assign(self, tgt, val, st):
         if isinstance(tgt, ast.Name):
+            loc = getattr(self.contract, "locals", None) if self.contract is not None else None
+            if loc and tgt.id in loc:
+                ty = parse_type(loc[tgt.id])
+                if val.ty is PY and isinstance(val.py, tuple) and val.py and val.py[0] in ("emptylist", "emptydict", "emptyset"):
+                    val = self.model.empty_container(self, ty, st)
+                else:
+                    val = self.coerce(val, ty)
             st.env[tgt.id] = val
         elif isinstance(tgt, (ast.Tuple, ast.List)):
             if val.ty is not TUPLE or len(val.py) != len(tgt.elts):
@@ -665,6 +678,7 @@ class Executor:
         def cont(st_):
             outs = []
             ts = z3.simplify(t)
+            taken = 0
             for cond, body in ((ts, s.body), (z3.simplify(z3.Not(ts)), s.orelse)):
                 if z3.is_false(cond):
                     continue
@@ -672,7 +686,11 @@ class Executor:
                 s2.assume(cond)
                 if not z3.is_true(cond) and not self.feasible(s2):
                     continue
+                taken += 1
                 outs.extend(self.run(body, s2) if body else [Outcome("fall", s2)])
+            if taken == 0:
+                # neither branch is feasible: the assumptions collected since the last fork are contradictory
+                self.dead_ends.append(s.lineno)
             return outs
         return self.with_raises(st, s, cont)
 
